@@ -95,7 +95,7 @@ def mutants(ctx):
         Mutant("dequeue_pop_back_pops_front", DQ, "    return parsec_list_pop_back((parsec_list_t*)dequeue);", "    return parsec_list_pop_front((parsec_list_t*)dequeue);", queries=["pop_back_dq"]),
         Mutant("add_after_back_link_missing", LH, "    position->list_next->list_prev = newel;", "", queries=["add_after_nolock"]),
         Mutant("pop_front_leaves_lock_taken", LH, "    parsec_list_item_t* item = parsec_list_nolock_pop_front(list);\n    parsec_list_unlock(list);\n    return item;",
-               "    parsec_list_item_t* item = parsec_list_nolock_pop_front(list);\n    if( NULL != item ) parsec_list_unlock(list);\n    return item;", queries=["pop_front_lock"]),
+               "    parsec_list_item_t* item = parsec_list_nolock_pop_front(list);\n    return item;", queries=["pop_front_lock"]),
     ]
 
 CLAIMED = False
